@@ -29,3 +29,17 @@ pub fn sniff_media_type(bytes: &[u8]) -> Option<crux_http::http::Mime> {
 pub fn fabricate_kv_error() -> crux_kv::error::KeyValueError {
     crux_kv::error::KeyValueError::Other { message: "made up".to_string() }
 }
+
+/// control for C15 R15.k: a JSON document decoded through a hand-built Deserializer that never checks for trailing data
+pub fn decode_json_prefix(bytes: &[u8]) -> Result<u32, serde_json::Error> {
+    let mut de = serde_json::Deserializer::from_slice(bytes);
+    serde::Deserialize::deserialize(&mut de)
+}
+
+/// control for C15 R15.k: the same with the trailing-data check (must stay quiet)
+pub fn decode_json_whole(bytes: &[u8]) -> Result<u32, serde_json::Error> {
+    let mut de = serde_json::Deserializer::from_slice(bytes);
+    let v: u32 = serde::Deserialize::deserialize(&mut de)?;
+    de.end()?;
+    Ok(v)
+}
